@@ -118,6 +118,32 @@ def part_b(ctx):
     ctx.sample({"flux_job": jobs[1], "final_pixel": frames[1][-1].ravel()[:4].tolist()})
 
 
+def part_c(ctx):
+    """The same flux pipelines swept through the observation modes (illumination level x readout time, both
+    declaration orders, sequential loop and dask schedulers): every run is an exposure of its own, and TLC
+    validates the buckets the result holds under the run's labels (rate x duration of that run)."""
+    from harness import obs
+    jobs = []
+    for order in ("level-first", "times-first"):
+        for dask_, sch, w in ((False, None, None), (True, "synchronous", None), (True, "threads", 3)):
+            jobs.append({"bases": [1, 3], "times": [2048, 4096, 1024], "order": order, "dask": dask_, "scheduler": sch,
+                         "workers": w, "base_time": 0.5})
+            if not ctx.quick:
+                jobs.append({"bases": [2, 1, 5], "times": [512, 8192], "order": order, "dask": dask_, "scheduler": sch,
+                             "workers": w, "base_time": 3.0})
+    results = check.pmap(obs.flux_sweep_job, jobs, chunksize=1)
+    traces = []
+    for r in results:
+        if r["error"]:
+            ctx.violation("flux.sweep.failed", f"sweep over level and readout time failed ({r['job']}): {r['error'][-300:]}",
+                          {"kind": "fluxsweep", "job": r["job"]}, {})
+        traces += r["traces"]
+    ctx.cov["replayed_cases"] += len(traces)
+    ctx.notes["flux_sweep_runs"] = len(traces)
+    if traces:
+        P.validate(ctx, traces, "sweeps")
+
+
 def run(ctx):
     _, cases = P.family(ctx, "flux", required=P.CORE_ACTIONS + ["SkipDisabled"],
                         note="every composition of an interval of MAXTICK ticks into <= MAXLEN readouts x start x "
@@ -132,6 +158,7 @@ def run(ctx):
                 "events_tail": traces[2]["events"][-1:]})
     P.validate(ctx, traces, "replay")
     part_b(ctx)
+    part_c(ctx)
     ctx.assumptions += ["integer rates and dyadic times make the float arithmetic of the flux models exact (part A); "
                         "computed rates (dark current, shaped illumination) are compared within rtol 1e-11 (part B)",
                         "the library's illumination / load_image / load_charge / simple_conversion / simple_collection "
@@ -140,6 +167,13 @@ def run(ctx):
 
 def replay(ctx, payload):
     case = payload["case"]
+    if case.get("kind") == "fluxsweep" or case.get("meta", {}).get("sweep"):
+        from harness import obs
+        r = obs.flux_sweep_job(case.get("job") or case["meta"]["sweep"])
+        print(r["error"], [(t["meta"]["level_base"], t["meta"]["time_ticks"], t["events"][0]["result"]["pixel"]) for t in r["traces"]])
+        if r["traces"]:
+            P.validate(ctx, r["traces"], "replay")
+        return ctx.finish()
     if case.get("kind") == "flux":
         f = flux_job(case["job"])
         print(f)
